@@ -259,6 +259,43 @@ def _run(ck, m):
               '%s can return before it looks at Watchers.map (an early exit on something other than the map itself): a change is committed and '
               'the registered watchers of the key are not told' % short(b.id), '%s:%s' % (b.file, b.line))
     ck.floor('C03.j', nj, 1, 'pure notifier bodies')
+    # ---- (k) every registered watcher of the key is sent the change: the sends of a pure notifier are decided by the watchers map alone
+    ck.rule('C03.k', 'every registered watcher is told of every change: in a pure notifier the only branches that decide whether a send happens are '
+                     'the lookup of the key in Watchers.map and the iteration over the senders found there — a filter on the version or the value '
+                     '("already superseded", "unchanged"), on a separately kept table or on any other state drops notifications of committed writes')
+    from props.C02 import controlling_switches
+    nk = 0
+    for nid in sorted(notifiers):
+        b = P.bodies[nid]
+        if any(mode == 'W' and l == 'Database.map' for l, mode in S.get(nid, ())):
+            continue
+        sends_ = [bi for bi, t in b.calls() if is_send(t)]
+        # parameters that feed the lookup of the watchers map (the key) and the lock (self)
+        okp = set()
+        for bi, t in b.calls():
+            da_ = t['f'].get('dargs', '')
+            if (da_.startswith('std::collections::HashMap::<std::string::String, std::vec::Vec<') and 'mpsc::Sender<' in da_) \
+                    or callee_decl(t) in locks.LOCK_FNS:
+                for a in t['args']:
+                    okp |= locks.backward_slice(b, a)[1]
+        bad = []
+        for sb in sends_:
+            for sw in controlling_switches(b, sb):
+                calls_, params_ = locks.backward_slice(b, b.term(sw)['o'], control=True)
+                for c in sorted(calls_):
+                    tc = b.term(c)
+                    cb_ = P.bodies.get(callee(tc))
+                    if cb_ is not None and not any(g in cb_.locals[0] for g in ('RwLockReadGuard', 'RwLockWriteGuard', 'MutexGuard')) \
+                            and callee(tc) not in sender_helpers:
+                        bad.append('%s (%s) decides the send at %s' % (short(callee(tc)), b.loc(c), b.loc(sb)))
+                for p_ in sorted(params_ - okp):
+                    bad.append('parameter #%d (%s) decides the send at %s' % (p_, b.locals[p_], b.loc(sb)))
+        nk += 1
+        okf = bool(sends_) and not bad
+        ck.ob('C03.k', short(b.id), 'sends-decided-by-the-watchers-map-alone', okf,
+              'the %d send(s) of %s are decided by the lookup in Watchers.map and the iteration only' % (len(sends_), short(b.id)) if okf else
+              '%s: a committed change can be withheld from a registered watcher: %s' % (short(b.id), sorted(set(bad))[:4]), '%s:%s' % (b.file, b.line))
+    ck.floor('C03.k', nk, 1, 'pure notifier bodies')
     # who may notify: only the three mutators (and the notifier's own helpers) call a pure notifier — a notification sent from anywhere
     # else announces a change that was not stored
     from props.C02 import store_fn as _st, increment_fn as _inc, remover_fn as _rem
